@@ -447,6 +447,12 @@ func newHarness(proto, mode, transport string) *harness {
 		h.f.fixed = api.ProtocolName(proto)
 	case "list":
 		h.f.scopes = []api.ProtocolName{api.ProtocolName(other(proto)), api.ProtocolName(proto)}
+	default:
+		if strings.HasPrefix(mode, "list:") { // an explicit ordered protocol list
+			for _, x := range strings.Split(mode[5:], ",") {
+				h.f.scopes = append(h.f.scopes, api.ProtocolName(x))
+			}
+		}
 	}
 	start := func(raw net.Conn) {
 		h.conn = network.NewServerConnection(ctx, raw, nil)
@@ -718,8 +724,18 @@ func (r *run) playT(cls string, cuts, pauses []int, mode, transport string) (abo
 	if transport == "inspector" {
 		peek = 1
 	}
-	tr.Emit(vh.Ev{"ev": "run", "proto": r.sp.Proto, "cls": cls, "lens": r.lens, "units": r.units, "mode": mode,
-		"conts": r.sp.Conts, "shapes": r.sp.Shapes, "cuts": cuts, "pauses": pauses, "transport": transport, "peek": peek})
+	ev := vh.Ev{"ev": "run", "proto": r.sp.Proto, "cls": cls, "lens": r.lens, "units": r.units, "mode": mode,
+		"conts": r.sp.Conts, "shapes": r.sp.Shapes, "cuts": cuts, "pauses": pauses, "transport": transport, "peek": peek}
+	if strings.HasPrefix(mode, "list:") {
+		l := strings.Split(mode[5:], ",")
+		ev["listn"] = len(l)
+		for i, x := range l {
+			if x == r.sp.Proto {
+				ev["ownpos"] = i + 1
+			}
+		}
+	}
+	tr.Emit(ev)
 	nruns++
 	h := newHarness(r.sp.Proto, mode, transport)
 	defer h.close()
@@ -963,6 +979,7 @@ func main() {
 	from := flag.Int("from", 0, "first work item (resume after a hang)")
 	status := flag.String("status", "", "status file: next work item after an aborted process")
 	nrand := flag.Int("random", 20, "random chunkings per stream (native)")
+	lists := flag.String("lists", "", "file with the shapes of protocol lists (Detect.tla cases)")
 	flag.Parse()
 	if !vh.HooksCompiled() {
 		vh.Must(fmt.Errorf("built without -tags verif"), "hooks")
@@ -1122,6 +1139,24 @@ func main() {
 							}
 						}
 					}
+					// listeners configured with a protocol LIST: every shape of list, a short first read of every length
+					// (the selection runs on the prefix buffered so far) and byte-by-byte delivery
+					for _, l := range listsFor(v.Proto, readShapes(*lists), rng, 2) {
+						if len(l) < 2 {
+							continue
+						}
+						mode := "list:" + strings.Join(l, ",")
+						for c := 1; c < n && c <= 26; c++ { // longer than every matcher's decision length (h2 preface: 24)
+							if r.play("list-cut", []int{c, n}, mode) && hung {
+								return
+							}
+						}
+						if len(l) == 2 || vh.Thorough() {
+							if r.play("list-bytewise", one[:r.lens[0]+r.lens[1]], mode) && hung {
+								return
+							}
+						}
+					}
 					if v.Proto == "tars" {
 						return
 					}
@@ -1165,11 +1200,72 @@ func main() {
 			}
 		}
 	case "detect":
-		runDetect(plist)
+		runDetect(plist, readShapes(*lists), rng)
 	case "e2e":
 		runE2E(*cases, *nrand)
 	}
 	finish()
+}
+
+// listShape is one TLC-enumerated shape of a listener's protocol list (Detect.tla): length and position of
+// the connection's own protocol.
+type listShape struct {
+	N   int `json:"n"`
+	Pos int `json:"pos"`
+}
+
+func readShapes(path string) []listShape {
+	out := []listShape{}
+	if path == "" {
+		return out
+	}
+	vh.Must(vh.ReadCases(path, func(raw json.RawMessage) error {
+		var x listShape
+		if err := json.Unmarshal(raw, &x); err != nil {
+			return err
+		}
+		out = append(out, x)
+		return nil
+	}), "list shapes")
+	return out
+}
+
+// listsFor realises the shapes for protocol own: every registered protocol as the other member of a pair,
+// `triples` seeded ordered pairs of others for the lists of three.
+func listsFor(own string, shapes []listShape, rng *rand.Rand, triples int) [][]string {
+	others := []string{}
+	for _, p := range protoNames {
+		if p != own {
+			others = append(others, p)
+		}
+	}
+	out := [][]string{}
+	place := func(pos int, rest []string) []string {
+		l := []string{}
+		l = append(l, rest[:pos-1]...)
+		l = append(l, own)
+		return append(l, rest[pos-1:]...)
+	}
+	for _, sh := range shapes {
+		switch sh.N {
+		case 1:
+			out = append(out, []string{own})
+		case 2:
+			for _, o := range others {
+				out = append(out, place(sh.Pos, []string{o}))
+			}
+		default:
+			for k := 0; k < triples; k++ {
+				pm := rng.Perm(len(others))
+				rest := []string{}
+				for _, i := range pm[:sh.N-1] {
+					rest = append(rest, others[i])
+				}
+				out = append(out, place(sh.Pos, rest))
+			}
+		}
+	}
+	return out
 }
 
 func verdict(err error) string {
@@ -1183,11 +1279,12 @@ func verdict(err error) string {
 }
 
 // runDetect evaluates every matcher and the real selection on every prefix of valid streams.
-func runDetect(plist []string) {
+func runDetect(plist []string, lshapes []listShape, rng *rand.Rand) {
 	ctx := baseCtx()
 	for _, p := range plist {
+		lists := listsFor(p, lshapes, rng, 6)
 		for _, v := range variants(p) {
-			for _, shapes := range [][]int{{0, 1}, {1, 0}, {2}} {
+			for si, shapes := range [][]int{{0, 1}, {1, 0}, {2}} {
 				sp := v
 				sp.Shapes = shapes
 				sp.Base = 40
@@ -1212,6 +1309,27 @@ func runDetect(plist []string) {
 							res = string(got)
 						}
 						tr.Emit(vh.Ev{"ev": "select", "n": k, "res": res, "total": n})
+						nfeeds++
+					}
+					if si > 0 {
+						continue
+					}
+					// the same prefix under every configured protocol list
+					for _, l := range lists {
+						sc := []api.ProtocolName{}
+						pos := 0
+						for i, x := range l {
+							sc = append(sc, api.ProtocolName(x))
+							if x == p {
+								pos = i + 1
+							}
+						}
+						got, err := stream.SelectStreamFactoryProtocol(ctx, "", pre, sc)
+						res := verdict(err)
+						if err == nil {
+							res = string(got)
+						}
+						tr.Emit(vh.Ev{"ev": "select", "n": k, "res": res, "total": n, "scope": l, "listn": len(l), "ownpos": pos})
 						nfeeds++
 					}
 				}
